@@ -782,6 +782,34 @@ func (s *streamInfo) batchEnds() []int {
 	return ends
 }
 
+// crcPrefixDamage reports whether every damaged byte of d is the first byte (the
+// gob message length prefix) of the checksum token of one batch, and which batch.
+func (s *streamInfo) crcPrefixDamage(d Damage) (batch int, ok bool) {
+	var first, n int
+	switch d.K {
+	case "flip":
+		first, n = d.Pos/8, 1
+	case "burst":
+		first, n = d.Pos, len(d.Xors)
+	default:
+		return 0, false
+	}
+	if n != 1 {
+		return 0, false
+	}
+	pos, k := 0, 0
+	for _, t := range s.toks {
+		if t.K == "crc" {
+			if pos == first {
+				return k, true
+			}
+			k++
+		}
+		pos += t.Used
+	}
+	return 0, false
+}
+
 // classify the observed behaviour on a damaged stream (for Sig/Kind only; the
 // verdict is computed by Coq from the same observations).
 func classify(s *streamInfo, d Damage, res []Res, crash string) (outcome, sig string) {
@@ -857,6 +885,12 @@ func classify(s *streamInfo, d Damage, res []Res, crash string) (outcome, sig st
 	case "EEOF":
 		if atBoundary && ngot == rowsBefore {
 			return "valid-prefix", "codec-damage"
+		}
+		// A special position: the damage is confined to the length prefix of the
+		// checksum message of batch k (bytes that no checksum covers), batch k is
+		// accepted with its correct rows, and everything after it is lost.
+		if k, ok := s.crcPrefixDamage(d); ok && ngot == totalRows(s.batches[:k+1]) && ngot < totalRows(s.batches) {
+			return "silent-eof", "codec-crc-prefix-swallows-rest-of-stream"
 		}
 		return "silent-eof", "codec-silent-eof-on-damaged-framing"
 	}
@@ -1139,6 +1173,24 @@ func main() {
 				sweep(s, sm.d)
 			} else {
 				sample(s, dr.Split(), 60, 25, 25, sm.d)
+				// crafted: a single flipped bit that makes the length prefix of a checksum
+				// message equal to the number of bytes left in the stream (known finding
+				// codec-crc-prefix-swallows-rest-of-stream), where one exists
+				pos := 0
+				for _, t := range s.toks {
+					if t.K == "crc" {
+						rest := len(s.bytes) - pos - 1
+						x := int(s.bytes[pos]) ^ rest
+						if rest > 0 && rest < 128 && x != 0 && x&(x-1) == 0 && pos+t.Used < len(s.bytes) {
+							bit := 0
+							for x>>uint(bit) != 1 {
+								bit++
+							}
+							addDamage(s, Damage{K: "flip", Pos: 8*pos + bit}, sm.d)
+						}
+					}
+					pos += t.Used
+				}
 			}
 			_ = i
 		}
